@@ -156,6 +156,16 @@ def history_task(task, wdir, res):
                 op("compact"); node.syncflush(); lt.compact_all(1); last_layout_op = "compact"
             elif r < 0.86:
                 op("restart"); set_clock(clock["ms"], 1); node = lt.restart_clean(); set_clock(clock["ms"] + 200, 1); last_layout_op = "restart"
+            elif r < 0.91 and remembered:
+                # a client that goes away while SHOW streams: the response writer breaks after n bytes; what SHOW had stored or
+                # recorded by then must not make a later SHOW differ from the live query
+                name = rng.choice(sorted(remembered))
+                n = rng.choice([0, 64, 300, 1000, 4000])
+                op(f"aborted show {name} after {n} bytes")
+                node.syncflush()
+                node.meta(f"failwrite {n}")
+                node.cmd(f"SHOW {name}")
+                last_layout_op = "aborted_show"
             else:
                 op("show"); compare(f"step {step}")
                 last_layout_op = "none"; arrival = "none_since_show"
